@@ -2660,6 +2660,12 @@ class SparseLogicalVector:
     def copy(self):
         return SparseLogicalVector.from_set(self.set.copy(), self.size)
     
+    def copy_like(self, other):
+        set = self.set
+        if set is other.set: return
+        set.clear()
+        set.update(other.set)
+    
     def __getitem__(self, index):
         set = self.set
         if index.__class__ is tuple:
